@@ -113,6 +113,10 @@ func runOrder(c *mc.Ctx) {
 		sc := &scs[si]
 		var points []pointRec
 		base, err := execute(sc, nil, &points)
+		if err != nil && strings.HasPrefix(err.Error(), "PROCESS-STATE:") {
+			c.Violation("process-state:"+strings.SplitN(strings.TrimPrefix(sc.Name, "process-state:"), " ", 2)[0], sc.Name+"\n"+err.Error(), replay{Scenario: sc.Name})
+			continue
+		}
 		if err != nil {
 			c.Violation("harness:scenario-failed:"+mc.Hash(sc.Name), sc.Name+": "+err.Error(), nil)
 			continue
@@ -243,7 +247,7 @@ func replayOrder(c *mc.Ctx, raw json.RawMessage) (string, bool) {
 		}
 		base, err := execute(&sc, nil, nil)
 		if err != nil {
-			return err.Error(), false
+			return err.Error(), strings.HasPrefix(err.Error(), "PROCESS-STATE:")
 		}
 		out, err := execute(&sc, &rp, nil)
 		if err != nil {
